@@ -83,9 +83,9 @@ def check_gated(I, data, gated, mask, pred, N):
     P('gated-is-input-filtered-by-a-row-mask', ok)
     if not ok:
         return
-    m = gated.term[2]
+    m = NDArr(gated.term[2].shape, gated.term[2].dtype, gated.term[3])      # the mask as it was when applied
     if mask is not None:
-        P('returned-mask-is-the-mask-applied', mask is m or (isinstance(mask, NDArr) and mask.fn is m.fn))
+        P('returned-mask-is-the-mask-applied', mask is gated.term[2] and mask.view_of is None and mask._fn is gated.term[3])
         P('mask-is-plain-bool-array', isinstance(mask, NDArr) and mask.dtype == 'bool' and mask.ndim == 1)
     i = I.ctx.fresh_int('ev_i')      # arbitrary event (skolem constant of the universally quantified goal)
     P('mask-length', (m.shape[0] if not isinstance(m.shape[0], int) else z3.IntVal(m.shape[0])) == N)
@@ -233,7 +233,7 @@ class HighLow(Contract):
             gated, mask = v.get('gated_data'), v.get('mask')
         else:
             gated, mask = v, None
-        x = data.fn
+        x = data.ufn        # the events as they were handed in
 
         def within(i_, c_):
             """event i strictly between the thresholds of column c"""
@@ -389,7 +389,7 @@ class Ellipse(Contract):
             u = co * (px - cx) + si * (py - cy)
             w = -si * (px - cx) + co * (py - cy)
             return (u / a) * (u / a) + (w / b) * (w / b)
-        pred = lambda i_: quad(tr(data.fn(i_, cols[0])), tr(data.fn(i_, cols[1]))) <= 1
+        pred = lambda i_: quad(tr(data.ufn(i_, cols[0])), tr(data.ufn(i_, cols[1]))) <= 1
         check_gated(I, data, gated, mask, pred, N)
         if contour is not None:
             ok = isinstance(contour, Seq) and len(contour.items) == 1 and isinstance(contour.items[0], NDArr) \
